@@ -439,7 +439,9 @@ PROPS.update({
     'C09': dict(
         explanation='theorems: which forms are emitted from a user impl, that each forwards to the base form with clones exactly where a reference must become a value, OpAssign from Op is `*self = &self op rhs`, Op from OpAssign is `{ a op= b; a }`, Output / generics / where-clause carry over with Self expanded. L1 `impl` family; L2 `fwdRun` (values and call logs from FwdImpl.call, composed through the generated forms) and logging user impls written with Self.',
         theorems=[('DeriveExModel.Props.Tables', ['DX.trait_table_model', 'DX.trait_table_complete']), (CMP + 'C09', ['DX.clone_exactly_when_needed', 'DX.binary_forwards_to_base', 'DX.assign_is_op',
-                                 'DX.op_from_assign', 'DX.emitted_binary_forms', 'DX.emitted_forms', 'DX.carries_over'])],
+                                 'DX.op_from_assign', 'DX.emitted_binary_forms', 'DX.emitted_forms', 'DX.carries_over']),
+                  (CMP + 'C09Self', ['DX.expandSelf_id_of_no_self', 'DX.output_self_expanded', 'DX.output_has_no_self',
+                                     'DX.output_verbatim', 'DX.rhs_self_expanded'])],
         l1=[('impl', 6000, 200000)],
         extra=extras(extra_cmp_l2('fwdRun', None, 600, 12000), extra_programs(l2gen.gen_c09_program, 640, 12800, per=80, what='an operator impl derived from the user impl does not forward faithfully (value, operand order, number of calls or clones)')),
         labels=r'^impl|^err$',
